@@ -79,7 +79,12 @@ func (p *Program) supervision() *supRoles {
 		s.problems = append(s.problems, "lifecycle roles unresolved")
 		return s
 	}
-	for _, fn := range p.methodsOf(lc.Ctx) {
+	// the supervising routine: the function of the actor package that consults the strategy (a method of the context, of the
+	// supervision context, or a plain function)
+	for _, fn := range p.Mod {
+		if fn.Parent() != nil || fnPkg(fn) == nil || fnPkg(fn) != lc.Ctx.Obj().Pkg() {
+			continue
+		}
 		for _, b := range fn.Blocks {
 			for _, in := range b.Instrs {
 				if c := callOf(in); c != nil && c.IsInvoke() && c.Method.Name() == "Supervise" {
@@ -125,6 +130,34 @@ func (p *Program) supervision() *supRoles {
 		}
 	}
 	if s.Apply != nil {
+		// the fields apply-decision (or a helper of the same type it calls) assigns
+		var scan []*ssa.Function
+		scan = append(scan, s.Apply)
+		for _, b := range s.Apply.Blocks {
+			for _, in := range b.Instrs {
+				if c := callOf(in); c != nil && c.StaticCallee() != nil && c.StaticCallee().Signature.Recv() != nil && namedOf(c.StaticCallee().Signature.Recv().Type()) == s.SupCtxT {
+					scan = append(scan, c.StaticCallee())
+				}
+			}
+		}
+		for _, sf := range scan {
+			for _, b := range sf.Blocks {
+				for _, in := range b.Instrs {
+					if st, ok := in.(*ssa.Store); ok {
+						if f, _ := fieldAddr(st.Addr); f != nil && fieldVar(s.SupCtxT, f.Name()) == f {
+							if _, isSl := f.Type().Underlying().(*types.Slice); isSl && sf == s.Apply {
+								s.Targets = f
+							}
+							if namedOf(f.Type()) == s.SupCtxT {
+								s.SubLink = f
+							}
+						}
+					}
+				}
+			}
+		}
+	}
+	if false {
 		for _, b := range s.Apply.Blocks {
 			for _, in := range b.Instrs {
 				if st, ok := in.(*ssa.Store); ok {
@@ -194,12 +227,13 @@ func c08Consult(p *Program, r *Report) {
 	if s == nil {
 		return
 	}
-	g := p.ig(s.OnSupervise)
+	g := p.igx(s.OnSupervise) // the choice of the strategy may live in a helper
+	defer p.withGraph(g)()
 	sup := nodesWhere(g, func(in ssa.Instruction) bool {
 		c := callOf(in)
 		return c != nil && c.IsInvoke() && c.Method.Name() == "Supervise"
 	})
-	once := len(sup) == 1 && !anyIn(g.Reach(g.entry(), sup, nil), g.Exits)
+	once := len(sup) == 1 && !anyIn(g.Reach(g.entry(), sup, g.nilArgEdges()), g.Exits)
 	for n := range sup {
 		if g.ReachAfter(n, nil, nil)[n] {
 			once = false
@@ -211,12 +245,33 @@ func c08Consult(p *Program, r *Report) {
 		o := p.origins(c.Value)
 		own := anyContains(o, "SupervisionStrategy<-field:"+p.lifecycle().pat(p.lifecycle().OptionsF))
 		sys := anyContains(o, "System.options")
-		// the system strategy is chosen only on the own==nil edge
-		ph, isPhi := c.Value.(*ssa.Phi)
-		good := own && sys && isPhi && len(ph.Edges) == 2
+		// the candidates: the operands of the phi, or the return operands of the helper that chooses
+		var leaves []ssa.Value
+		var expand func(v ssa.Value, d int)
+		expand = func(v ssa.Value, d int) {
+			if d > 4 {
+				return
+			}
+			if ph, isPhi := v.(*ssa.Phi); isPhi {
+				for _, e := range ph.Edges {
+					expand(e, d+1)
+				}
+				return
+			}
+			vs := g.values(v)
+			if len(vs) == 1 && vs[0] == g.res(v) {
+				leaves = append(leaves, vs[0])
+				return
+			}
+			for _, w := range vs {
+				expand(w, d+1)
+			}
+		}
+		expand(c.Value, 0)
+		good := own && sys && len(leaves) == 2
 		if good {
 			nilE := map[edge]bool{}
-			for _, ifi := range ifsOf(s.OnSupervise) {
+			for _, ifi := range g.ifs() {
 				for _, outcome := range []bool{true, false} {
 					f, ok := condFact(ifi.Cond, outcome)
 					if ok && f.IsNil && f.Op == token.EQL && anyContains(p.origins(f.X), "Context.options") {
@@ -225,7 +280,7 @@ func c08Consult(p *Program, r *Report) {
 				}
 			}
 			found := false
-			for _, e := range ph.Edges {
+			for _, e := range leaves {
 				if anyContains(p.origins(e), "System.options") {
 					if ld, ok := e.(ssa.Instruction); ok {
 						found = len(nilE) > 0 && g.DominatedByEdges(g.Idx[ld], nilE)
@@ -561,7 +616,7 @@ func c08Exhaustive(p *Program, r *Report) {
 		t, _ := decisionEdges(g, pred)
 		dT = mergeEdges(dT, t)
 	}
-	reach := g.Reach(g.entry(), eff, dT)
+	reach := g.Reach(g.entry(), eff, mergeEdges(dT, g.nilArgEdges()))
 	r.Check(!anyIn(reach, g.Exits), "every decision value takes a branch", s.Apply.Pos(),
 		"no path through apply-decision reaches the exit without entering a directive body: a decision outside the known values is treated as escalate, otherwise the failing child would stay paused forever")
 }
@@ -736,7 +791,7 @@ func c09RestartResumes(p *Program, r *Report) {
 	if lc == nil {
 		return
 	}
-	g := p.ig(lc.HandleRestart)
+	g := p.igxSkip(lc.HandleRestart, lc.roleFuncs(p))
 	resume := nodesWhere(g, func(in ssa.Instruction) bool {
 		c := callOf(in)
 		return c != nil && c.IsInvoke() && c.Method.Name() == "Resume" && anyContains(p.origins(c.Value), "Context."+lc.MailboxF.Name()+"<-")
@@ -755,10 +810,27 @@ func c09Broadcast(p *Program, r *Report) {
 	bg := p.ig(s.Broadcast)
 	tells := map[int]bool{}
 	goodT := true
+	// what is told: the routine's own (system, message) parameters, or — in a routine specialised for one command — values
+	// fixed before the loops; the same pair at every tell
+	var bSys, bMsg ssa.Value
 	for _, ts := range p.tellSites(s.Broadcast) {
 		tells[bg.Idx[ts.In]] = true
-		if len(s.Broadcast.Params) < 4 || strip(ts.System) != ssa.Value(s.Broadcast.Params[2]) || strip(ts.Message) != ssa.Value(s.Broadcast.Params[3]) {
+		sv, mv := strip(ts.System), strip(ts.Message)
+		if bSys == nil {
+			bSys, bMsg = sv, mv
+		} else if bSys != sv || bMsg != mv {
 			goodT = false
+		}
+		for _, v := range []ssa.Value{sv, mv} {
+			switch x := v.(type) {
+			case *ssa.Parameter, *ssa.Const:
+			case ssa.Instruction:
+				if i, in := bg.Idx[x]; !in || bg.ReachAfter(i, nil, nil)[i] {
+					goodT = false // recomputed inside a loop
+				}
+			default:
+				goodT = false
+			}
 		}
 		o := p.origins(ts.Recipient)
 		if !allContain(o, "elem<-field:"+s.SupCtxT.Obj().Name()+"."+s.Targets.Name()+"<-") {
@@ -830,11 +902,25 @@ func c09Broadcast(p *Program, r *Report) {
 		if c == nil || c.StaticCallee() != s.Broadcast {
 			return false
 		}
-		// system=true, message = CommandResumeMailbox.Build()
-		if b, isC := constBool(c.Args[2]); !isC || !b {
+		// system=true, message = CommandResumeMailbox.Build() — passed by the caller or fixed inside the routine
+		eff := func(v ssa.Value) ssa.Value {
+			if prm, isP := v.(*ssa.Parameter); isP {
+				for k, q := range s.Broadcast.Params {
+					if q == prm && k < len(c.Args) {
+						return c.Args[k]
+					}
+				}
+			}
+			return v
+		}
+		if bSys == nil || bMsg == nil {
 			return false
 		}
-		return anyContains(p.origins(c.Args[3]), "Build") && resumeCommand(c.Args[3])
+		if b, isC := constBool(eff(bSys)); !isC || !b {
+			return false
+		}
+		m := eff(bMsg)
+		return anyContains(p.origins(m), "Build") && resumeCommand(m)
 	})
 	kill := p.ctxMethod(lc, "Kill")
 	gr := map[edge]bool{}
@@ -1003,7 +1089,7 @@ func c09Zombie(p *Program, r *Report) {
 	}
 	r.Check(okA && nDisp > 0 && len(zT) > 0, "zombie runs the empty behaviour", fn.Pos(), fmt.Sprintf("all %d behaviour dispatches of the envelope handler use a value that is the empty behaviour on the zombie edge", nDisp))
 	// (b) restart-failure path tells nobody
-	rg := p.ig(lc.HandleRestart)
+	rg := p.igxSkip(lc.HandleRestart, lc.roleFuncs(p))
 	zs := nodesWhere(rg, func(in ssa.Instruction) bool {
 		st, ok := in.(*ssa.Store)
 		if !ok {
@@ -1218,7 +1304,7 @@ func c08RecordedTargets(p *Program, r *Report) {
 			}
 		}
 	}
-	okR := len(rec) > 0 && !anyIn(ag.Reach(ag.entry(), rec, nil), ag.Exits)
+	okR := len(rec) > 0 && !anyIn(ag.Reach(ag.entry(), rec, ag.nilArgEdges()), ag.Exits)
 	late := ""
 	for i, in := range ag.Nodes {
 		c := callOf(in)
@@ -1316,7 +1402,8 @@ func c09HookDecides(p *Program, r *Report) {
 			}
 			return "", false
 		},
-		Event: func(in ssa.Instruction) string { return "" },
+		Event:   func(in ssa.Instruction) string { return "" },
+		Descend: true, // the zombie branch may be a helper of the handler
 		Classify: func(in ssa.Instruction) string {
 			if st, ok := in.(*ssa.Store); ok {
 				if f, _ := fieldAddr(st.Addr); f == lc.Zombie {
